@@ -398,6 +398,18 @@ class FnEmitter:
             if t.kind == 'doc':
                 edits.append((t.start, t.end, '', None))
 
+        # R10 ranges are computed first: macro rewrites inside a wrapped expression are not applied
+        wrapped = []
+        for (wfn, wtext), wrep in EXPR_WRAPPERS.items():
+            if wfn != key:
+                continue
+            body_text0 = text[toks[bopen].end:toks[bclose].start]
+            pos0 = body_text0.find(wtext)
+            while pos0 >= 0:
+                a0 = toks[bopen].end + pos0
+                wrapped.append((a0, a0 + len(wtext)))
+                pos0 = body_text0.find(wtext, pos0 + 1)
+
         # macros
         k = kfn
         while k < bclose:
@@ -408,6 +420,9 @@ class FnEmitter:
                     j2 = next_sig(toks, j)
                     if toks[j2].kind == 'p' and toks[j2].text in '([{':
                         cl = match_close(toks, j2)
+                        if any(wa <= t.start and toks[cl].end <= wb for wa, wb in wrapped):
+                            k = cl + 1
+                            continue
                         if t.text in MACRO_RULES:
                             rule, rep = MACRO_RULES[t.text]
                             edits.append((t.start, toks[cl].end, rep, None))
